@@ -130,6 +130,56 @@ Theorem udp_deadline_when_none_matches :
     exchange_dgram decodes bufsize qid fs = Err "timeout".
 Proof. exact exchange_dgram_timeout. Qed.
 
+(* The deadline clause with a clock.  Arrivals carry the time at which they
+   become readable (arrival order); the read deadline is fixed when the request
+   is written (exchange_dgram_timed, Model/Frame.v).  However many well-formed
+   replies with other IDs arrive before the deadline and however often - stale,
+   duplicated, at any rate - and WHATEVER arrives at or after it (the matching
+   reply included), the exchange ends with the deadline error: foreign replies
+   do not extend the deadline. *)
+Theorem udp_deadline_holds_under_sustained_foreign_replies :
+  forall (decodes : bytes -> bool) (bufsize : nat) (qid deadline : N) (arr : list (N * bytes)),
+    Forall (fun a => fst a < deadline ->
+                     (headerSize <= length (firstn bufsize (snd a)))%nat /\
+                     decodes (firstn bufsize (snd a)) = true /\
+                     msg_id (firstn bufsize (snd a)) <> qid) arr ->
+    exchange_dgram_timed decodes bufsize qid deadline arr = Err "timeout".
+Proof. exact exchange_dgram_timed_timeout. Qed.
+
+(* The matching reply that arrives before the deadline is returned, whatever
+   foreign replies came before it and whatever comes after it. *)
+Theorem udp_reply_before_deadline_returned :
+  forall (decodes : bytes -> bool) (bufsize : nat) (qid deadline : N) (fs : list (N * bytes))
+         (t : N) (r : bytes) (later : list (N * bytes)),
+    Forall (fun a => fst a < deadline ->
+                     (headerSize <= length (firstn bufsize (snd a)))%nat /\
+                     decodes (firstn bufsize (snd a)) = true /\
+                     msg_id (firstn bufsize (snd a)) <> qid) fs ->
+    t < deadline ->
+    (headerSize <= length (firstn bufsize r))%nat -> decodes (firstn bufsize r) = true ->
+    msg_id (firstn bufsize r) = qid ->
+    exchange_dgram_timed decodes bufsize qid deadline (fs ++ (t, r) :: later) = Ok (firstn bufsize r).
+Proof. exact exchange_dgram_timed_reply. Qed.
+
+(* Nothing that arrives at or after the deadline influences the outcome. *)
+Theorem udp_arrivals_after_deadline_ignored :
+  forall (decodes : bytes -> bool) (bufsize : nat) (qid deadline : N) (arr late : list (N * bytes)),
+    Forall (fun a => deadline <= fst a) late ->
+    exchange_dgram_timed decodes bufsize qid deadline (arr ++ late) =
+    exchange_dgram_timed decodes bufsize qid deadline arr.
+Proof. exact exchange_dgram_timed_ignores_late. Qed.
+
+(* The deadline is the earlier of the client's timeout (Timeout, else
+   ReadTimeout, else 2 s) and the context's deadline. *)
+Theorem deadline_is_earlier_of_timeout_and_context :
+  forall (timeout read_timeout c : N),
+    exchange_deadline timeout read_timeout (Some c) <= client_read_timeout timeout read_timeout /\
+    exchange_deadline timeout read_timeout (Some c) <= c /\
+    (exchange_deadline timeout read_timeout (Some c) = client_read_timeout timeout read_timeout \/
+     exchange_deadline timeout read_timeout (Some c) = c) /\
+    exchange_deadline timeout read_timeout None = client_read_timeout timeout read_timeout.
+Proof. exact exchange_deadline_earliest. Qed.
+
 (* Whatever arrives in whatever order, an exchange never returns a reply with
    another ID, and what it returns is one of the datagrams received. *)
 Theorem exchange_never_returns_foreign :
